@@ -284,6 +284,13 @@ func (kde *KDE) Bounds() (low float64, high float64) {
 	if lowX == highX {
 		lowX -= 1
 		highX += 1
+		if lowX == highX {
+			// The value is too large for a unit step to
+			// change it. Step to the adjacent floats so
+			// the expansion below has a width to double.
+			lowX = math.Nextafter(lowX, math.Inf(-1))
+			highX = math.Nextafter(highX, math.Inf(1))
+		}
 	}
 
 	// Find the end points that contain 99% of the CDF's weight.
